@@ -748,6 +748,13 @@ class Interp:
             kind = self.engine.field_kind(obj.cls, attr)
             if kind is None:
                 raise Unsupported(f"write to undeclared field {attr} of {obj.cls}")
+            if callable(kind) and not hasattr(kind, "sort"):
+                # a field whose reads are computed by the contract: writes go to the contract's write hook
+                hook = getattr(self.engine.contract, "field_writes", {}).get((obj.cls, attr))
+                if hook is None:
+                    raise Unsupported(f"write to computed field {attr} of {obj.cls} without a write hook")
+                hook(self, obj, v)
+                return
             self.engine.heap_write(self.ctx, obj, attr, kind, v)
             return
         cells = getattr(self.engine, "class_cells", None)
